@@ -424,7 +424,7 @@ def model_dens(ck: Check, d, only=None) -> dict:
 
 
 def oracle_core(ck: Check, camp, d, hint_of, trig: list[str], dens: dict | None, level: str = "type", extra: dict | None = None,
-                only=None, attribute: bool = True) -> None:
+                only=None, attribute: bool = True, embed: bool = True) -> None:
     """The property's own oracle on the 8 spellings of one annotation (`hint_of(d, o)`): each spelling is a balanced,
     parsable, evaluable expression without a doubly wrapped optional and with None at most once per union, it
     evaluates to the denotation of the type tree (`dens`, when given), and all spellings denote the same type.
@@ -481,7 +481,7 @@ def oracle_core(ck: Check, camp, d, hint_of, trig: list[str], dens: dict | None,
         else:
             rest = [t for t in trig if t not in ("union_of_only_none", "literal_special")] or trig
             cls["trigger"] = rest[0]
-        if attribute and match_finding(ck.findings, cls) is None and not ck.failures:
+        if embed and attribute and match_finding(ck.findings, cls) is None and not ck.failures:
             doc = embed_document(d, extra.get("field"))
             if doc is not None:
                 inp = {**inp, "document": doc}
@@ -539,9 +539,9 @@ def oracle_core(ck: Check, camp, d, hint_of, trig: list[str], dens: dict | None,
 TYPING0, OPERATOR0 = (False, False, False), (True, False, False)
 
 
-def oracle_tree(ck: Check, camp, d, dens: dict | None = None, trig: list[str] | None = None) -> None:
+def oracle_tree(ck: Check, camp, d, dens: dict | None = None, trig: list[str] | None = None, embed: bool = True) -> None:
     """`DataType(...).type_hint` of the tree `d` in all 8 spellings"""
-    oracle_core(ck, camp, d, lambda x, o: real_hint(x, o)[0], triggers(d) if trig is None else trig, dens)
+    oracle_core(ck, camp, d, lambda x, o: real_hint(x, o)[0], triggers(d) if trig is None else trig, dens, embed=embed)
 
 
 def field_hint(d, o, fb) -> str:
@@ -568,9 +568,9 @@ def field_hint(d, o, fb) -> str:
         return "!exc"
 
 
-def oracle_field(ck: Check, camp, d, fb, trig: list[str] | None = None) -> None:
+def oracle_field(ck: Check, camp, d, fb, trig: list[str] | None = None, embed: bool = True) -> None:
     """the annotation of a FIELD of type `d` (the field-level optional decision on top of the type's hint) in all 8 spellings"""
-    oracle_core(ck, camp, d, lambda x, o: field_hint(x, o, fb), triggers(d) if trig is None else trig, None, level="field", extra={"field": fb})
+    oracle_core(ck, camp, d, lambda x, o: field_hint(x, o, fb), triggers(d) if trig is None else trig, None, level="field", extra={"field": fb}, embed=embed)
 
 
 # ---------------------------------------------------------------- campaigns
@@ -692,26 +692,34 @@ def real_side(d) -> dict:
                 tree = None
             if tree is not None:
                 nnone[o], nwrap[o] = none_counts(tree), wrapper_subscripts(tree)
-    return {"hints": hints, "trig": trig, "domain": domain, "evaluable": evaluable, "nfs": nfs, "nnone": nnone, "nwrap": nwrap, "oracle_fails": None}
+    return {"hints": hints, "trig": trig, "domain": domain, "evaluable": evaluable, "nfs": nfs, "nnone": nnone, "nwrap": nwrap}
 
 
 _probe: Check | None = None
 
 
 def _worker(ds: list) -> list:
-    """real side + the property's oracle on a chunk of trees; the parent re-runs the oracle on the trees flagged
-    here, so classification and known-finding matching happen in one place"""
+    """real side + the property's oracle on a chunk of trees (same known findings as the check): the classified
+    oracle events are returned and replayed by the parent through its own `fail`, so the verdict is formed in one place"""
     global _probe
     if _probe is None:
         _probe = Check("C13", "thorough")
-        _probe.findings = []
     out = []
     for d in ds:
         r = real_side(d)
         if r["domain"]:
+            events = []
             _probe.failures = []
-            oracle_tree(_probe, Campaign("probe"), d, trig=r["trig"])
-            r["oracle_fails"] = bool(_probe.failures)
+            orig = Check.fail.__get__(_probe)
+
+            def rec(cls, inp, observed, expected="", _orig=orig, _ev=events):
+                _ev.append((cls, inp, observed))
+                return _orig(cls, inp, observed, expected)
+
+            _probe.fail = rec
+            oracle_tree(_probe, Campaign("probe"), d, trig=r["trig"], embed=False)
+            r["oracle_events"] = events
+            r["oracle_new"] = bool(_probe.failures)
         out.append(r)
     return out
 
@@ -782,8 +790,12 @@ def judge_tree(ck: Check, tc: TreeCampaigns, stream: str, d, reps: list[str], re
         orc.hit(f"stream:{stream}")
         for t in trig:
             orc.hit("tree:" + t)
-        if real["oracle_fails"] is False:
-            orc.distinct.add(key)  # established by the worker process: every clause of the oracle holds
+        if "oracle_events" in real and not real["oracle_new"]:
+            # the oracle ran in a worker process: nothing new; its classified events (known findings) are recorded here
+            for cls, inp, observed in real["oracle_events"]:
+                ck.fail(cls, inp, observed)
+            if not real["oracle_events"]:
+                orc.distinct.add(key)
         else:
             oracle_tree(ck, orc, d, dens=dens, trig=trig)
         if len(orc.samples) < 3 and tt.size(d) > 3:
@@ -1085,9 +1097,9 @@ def known_findings(ck: Check) -> None:
         camp = probe.campaign("witness")
         d = f["witness"]["tree"]
         if f["witness"].get("field") is not None:
-            oracle_field(probe, camp, d, f["witness"]["field"])
+            oracle_field(probe, camp, d, f["witness"]["field"], embed=False)
         else:
-            oracle_tree(probe, camp, d, dens=model_dens(ck, d))
+            oracle_tree(probe, camp, d, dens=model_dens(ck, d), embed=False)
         if probe.failures:
             ck.known(f["id"], f["what"])
 
